@@ -163,7 +163,7 @@ def client_wait(w):
     for cond in ("expect", "initial", "check"):
         for ek in ("value", "state"):
             for timeout in (None, 2.0, 4.0):
-                for polling in ((None, (1.0, 1.0)) if small else (None, (1.0, 1.0), (0.5, 2.0))):
+                for polling in ((None, (0.5, 2.0)) if small else (None, (1.0, 1.0), (0.5, 2.0), (1.5, 0.5))):      # delay != interval: swapping them shows
                     arr_sets = [[]] if timeout is not None else []
                     for m in grid:
                         arr_sets.append([(m, True)])
